@@ -48,9 +48,27 @@ fn main() {
         serde_json::json!({"reference_points": st.points, "worst_t_cdf_abs": st.worst_t_cdf, "worst_t_cdf_quadrature_abs": st.worst_quad,
             "worst_t_quantile_rel": st.worst_t_ppf_rel, "worst_norm_cdf_abs": st.worst_norm_cdf, "worst_norm_quantile_abs": st.worst_norm_ppf, "worst_binom_pmf_rel": st.worst_binom_rel}),
     );
-    if !props::dispatch(&id, &run) {
-        println!("INCONCLUSIVE property={} reason=unknown_property", id);
-        std::process::exit(2);
+    match sci_common::rt::caught(|| props::dispatch(&id, &run)) {
+        Ok(true) => {}
+        Ok(false) => {
+            println!("INCONCLUSIVE property={} reason=unknown_property", id);
+            std::process::exit(2);
+        }
+        Err(p) => {
+            // a panic outside the sharded runner (sequential lanes): classified like the others
+            let mut l = run.local();
+            run.escaped_panic(&p, "sequential_lane", &mut l);
+            run.absorb(l);
+        }
+    }
+    // the same monitor executed against the production-profile build of the crate (see /verif/check)
+    if let Some(i) = run.cfg.extra.iter().position(|a| a == "--prod-summary") {
+        let path = run.cfg.extra.get(i + 1).cloned().unwrap_or_default();
+        run.import_lane("production", &path);
+        run.require(&["production lane judged"]);
+        run.assume("judged in two builds of the crate: checked (overflow-checks + debug-assertions, full workload of the tier) and production (neither; quick-tier workload), the second folded in as the `production` lane");
+    } else if cfg!(not(debug_assertions)) {
+        run.assume("this is the production-profile lane: overflow-checks = false, debug-assertions = false");
     }
     let code = run.finish();
     std::process::exit(code);
